@@ -359,7 +359,7 @@ PROPS = {
         "level": "proof", "module": "Resolvo.Props.C20",
         "theorems": ["Resolvo.C20.partition", "Resolvo.C20.matching_exact", "Resolvo.C20.sorted_members", "Resolvo.C20.sorted_favored", "Resolvo.C20.sorted_unfavored",
                      "Resolvo.C20.sort_is_sorted", "Resolvo.C20.answer_state_independent", "Resolvo.C20.repeat_no_call", "Resolvo.C20.available_iff", "Resolvo.C20.inflight_not_available",
-                     "Resolvo.C20.waiter_no_call", "Resolvo.C20.drop_waiter_keeps_request"],
+                     "Resolvo.C20.waiter_no_call", "Resolvo.C20.drop_waiter_keeps_request", "Resolvo.C20.one_request_per_package_in_flight"],
         "families": [("cache", {"quick": 6000, "thorough": 100000})],
         "assumptions": ["provider contract: filter_candidates is a pure membership filter that returns what it keeps in input order or (1/5 of the generated providers) in reverse input order - the trait promises no order -, sort_candidates a stable sort by a per-solvable key (the table provider of the harness)"],
     },
